@@ -288,6 +288,13 @@ def _run_atheris(shard, res, dl):
     import subprocess
     import sys
     import tempfile
+    import importlib.util
+    if importlib.util.find_spec("atheris") is None:
+        # MANIFEST.setup_cmd installs atheris into .deps/ ("|| true"): where
+        # that did not happen the campaign is skipped, not failed - the other
+        # engines of this check do not depend on it
+        res.label("atheris:unavailable")
+        return
     here = os.path.dirname(os.path.dirname(os.path.abspath(__file__)))
     target = os.path.join(here, "fuzz", "target_c14.py")
     tmp = tempfile.mkdtemp(prefix="vp-c14-fuzz-")
